@@ -237,6 +237,45 @@ Proof.
   inversion EM; subst. apply m_tagbody_some_marker in EB. discriminate EB.
 Qed.
 
+(* ---- functions with a closure ------------------------------------------------------------------------ *)
+(* scope.go InBlock as Lambda.Call sets it up for a function with a closure: the call scope itself (the block
+   named like the function), then the defining context, then the callers - all three are searched *)
+Lemma in_block_app : forall a b t, in_block (a ++ b) t = in_block a t || in_block b t.
+Proof. intros. unfold in_block. apply existsb_app. Qed.
+Theorem in_block_call_scope : forall f dc sc t,
+  in_block ((true, f) :: dc ++ sc) t = N.eqb f t || in_block dc t || in_block sc t.
+Proof. intros. unfold in_block at 1. cbn [existsb fst snd andb]. fold (in_block (dc ++ sc) t). rewrite in_block_app, orb_assoc. reflexivity. Qed.
+
+(* a return-from with the function's own name leaves the function from any depth, with the cleanups on its
+   way, whatever the context the defun was written in (reference; model of the Go code) *)
+Theorem S_return_from_function : forall (defs : list def) i dc E v pre post bl tg st fuel,
+  nth_error defs i = Some (dc, trs pre ++ plug E (ReturnFrom (fn_tag i) (Const (LInt v))) :: post) ->
+  transp E (Ret (fn_tag i) (VInt v)) = true -> enterable E (logtrs pre st) ->
+  seval defs (S (length E + S (S fuel))) bl tg (CallU i) st = (Normal (VInt v), leave E (enter E (logtrs pre st))).
+Proof.
+  intros defs i dc E v pre post bl tg st fuel NE T EN. cbn [seval]. rewrite NE.
+  assert (TR : forall k s, seval defs (length E + S (S fuel)) [fn_tag i] [] (Tr k) s =
+                           (Normal (VInt (Z.of_N k)), log (ETr k (locks s) (files s)) s)).
+  { rewrite Nat.add_succ_r. reflexivity. }
+  rewrite (s_seq_trs _ TR pre _ post VNil st (Ret (fn_tag i) (VInt v)) (leave E (enter E (logtrs pre st))) I).
+  - cbn [catch]. rewrite N.eqb_refl. reflexivity.
+  - apply exit_through_context; [exact I | exact T | exact EN |].
+    cbn [seval]. rewrite bl_in_mem; [reflexivity|]. cbn. rewrite N.eqb_refl. reflexivity.
+Qed.
+
+Theorem M_return_from_function_any_closure : forall (defs : list def) i dc E v pre post st fuel,
+  gd_defs 0 defs = true ->
+  nth_error defs i = Some (dc, trs pre ++ plug E (ReturnFrom (fn_tag i) (Const (LInt v))) :: post) ->
+  transp E (Ret (fn_tag i) (VInt v)) = true -> enterable E (logtrs pre st) ->
+  mrun (S (length E + S (S fuel))) (defs, CallU i) st = (MVal (VInt v), leave E (enter E (logtrs pre st))).
+Proof.
+  intros defs i dc E v pre post st fuel GD NE T EN.
+  pose proof (S_return_from_function defs i dc E v pre post [] [] st fuel NE T EN) as HS.
+  assert (Gp : guard (defs, CallU i) = true) by (unfold guard; cbn; exact GD).
+  destruct (impl_eq_ref (defs, CallU i) _ _ _ _ Gp HS) as (r & EM & RL & _); [discriminate|].
+  rewrite EM. apply norm_res_int in RL. subst. reflexivity.
+Qed.
+
 (* ---- non-vacuity ---------------------------------------------------------------------------------- *)
 Definition st0 : state := init_state [0%Z; 0%Z].
 
@@ -244,7 +283,7 @@ Definition st0 : state := init_state [0%Z; 0%Z].
    unwind-protect, with-open-file, when), a user function with its own unwind-protect and (return), and a
    return-from that crosses all of it from the FIRST position of a when body, after which forms follow *)
 Definition ex_prog : prog :=
-  ([[Block 0%N [UnwindProtect 9%N (Return (Const (LInt 5))) [Tr 90%N]; Tr 91%N]]],
+  ([([(false, 0%N)], [Block 0%N [UnwindProtect 9%N (Return (Const (LInt 5))) [Tr 90%N]; Tr 91%N]])],
    Block 1%N [Let [Tr 1%N]
                 [UnwindProtect 1%N
                    (WithMutex 0%N [Tr 2%N;
@@ -285,6 +324,22 @@ Proof. vm_compute. repeat split; reflexivity. Qed.
 Definition KI (z : Z) : form := Const (LInt z).
 Definition run_m (p : prog) (vs : list Z) := let '(r, st) := mrun 60 p (init_state vs) in (r, visible (trace st), vars st).
 Definition run_s (p : prog) (vs : list Z) := let '(o, st) := srun 60 p (init_state vs) in (o, visible (trace st), vars st).
+
+(* a function defined inside (let ((c 1)) (block nil (let ((c 2)) (defun f0 () ...)))) that leaves itself by name
+   from inside when / unwind-protect / dolist / a funcall'ed lambda: inside the guard, value and trace *)
+Definition ex_closure_fn : prog :=
+  ([([(false, 0%N); (true, 0%N); (false, 0%N)],
+     [Tr 1%N;
+      UnwindProtect 1%N
+        (Loop KDolist 2 [IForm (Lam [When (Const LT) [ReturnFrom (fn_tag 0) (Tr 2%N); Tr 3%N]]); IForm (Tr 4%N)] (Const LNil))
+        [Tr 5%N];
+      Tr 6%N])],
+   CallList [CallU 0; Tr 7%N]).
+Example ex_closure_fn_ok :
+  guard ex_closure_fn = true /\
+  run_m ex_closure_fn [0%Z] = (MVal (VList [VInt 2; VInt 7]), [(1, 0, 0); (2, 0, 0); (5, 0, 0); (7, 0, 0)]%N, [0%Z]) /\
+  run_s ex_closure_fn [0%Z] = (Normal (VList [VInt 2; VInt 7]), [(1, 0, 0); (2, 0, 0); (5, 0, 0); (7, 0, 0)]%N, [0%Z]).
+Proof. vm_compute. repeat split; reflexivity. Qed.
 
 (* (block b (when t (return-from b 1) (tr 7)) 2) and the same through cond, progn, ignore-errors, recover,
    with-mutex-lock, with-open-file *)
@@ -333,14 +388,18 @@ Proof. vm_compute. repeat split; reflexivity. Qed.
 (* each witness: outside the guard; M's outcome (what slip does, confirmed on every run by the replay of
    the known finding) against S's *)
 (* (defun g () (return-from zz 3)) (block zz (g) 5): InBlock walks the callers' scopes: not lexical *)
-Definition w_dyn : prog := ([[ReturnFrom 7%N (KI 3)]], Block 7%N [CallU 0; KI 5]).
+Definition w_dyn : prog := ([([], [ReturnFrom 7%N (KI 3)])], Block 7%N [CallU 0; KI 5]).
 (* (defun g () (go 5)) (tagbody (g) (setq v0 (+ v0 1)) 5): the TagBody flag is inherited by the scope of the
    call, the marker travels up to the caller's tagbody *)
-Definition w_dyn_go : prog := ([[Go 5%N]], Tagbody [IForm (CallU 0); IForm (Incf 0); ITag 5%N]).
+Definition w_dyn_go : prog := ([([], [Go 5%N])], Tagbody [IForm (CallU 0); IForm (Incf 0); ITag 5%N]).
 (* (tagbody (go 45)): go only checks the flag, not the tag; the marker leaves the tagbody as its value *)
 Definition w_go_unknown : prog := ([], Tagbody [IForm (Go 45%N)]).
+(* (block b7 (defun g () (return-from b7 1) 2)) (list (g)): the block the defun was written in is on the closure
+   chain of every later call although it has exited; nothing catches the marker *)
+Definition w_exited : prog := ([([(true, 7%N)], [ReturnFrom 7%N (KI 1); KI 2])], CallList [CallU 0]).
 Theorem dynamic_lookup_refuted :
-  guard w_dyn = false /\ guard w_dyn_go = false /\ guard w_go_unknown = false /\
+  guard w_dyn = false /\ guard w_dyn_go = false /\ guard w_go_unknown = false /\ guard w_exited = false /\
+  fst (mrun 60 w_exited st0) = MVal (VRetM 7%N (VInt 1)) /\ fst (srun 60 w_exited st0) = Err CControl /\
   fst (mrun 60 w_dyn st0) = MVal (VInt 3) /\ fst (srun 60 w_dyn st0) = Err CControl /\
   run_m w_dyn_go [0%Z] = (MVal VNil, [], [0%Z]) /\ run_s w_dyn_go [0%Z] = (Err CControl, [], [0%Z]) /\
   fst (mrun 60 w_go_unknown st0) = MVal (VGoM 45%N) /\ fst (srun 60 w_go_unknown st0) = Err CControl.
